@@ -42,5 +42,7 @@ def run(ctx):
     D.r11_1_calltime_writes(ctx, 'R06.12', modules=('yatiml.dumper', 'yatiml.representers'))
     R.r05_8_hook_symmetry(ctx, 'R06.13')
     R3.r10_8_each_class_once(ctx, 'R06.14')
+    from . import alias_rules as A_
+    A_.r05_17_dump_cycle_walk(ctx, 'R06.15')
     from . import memo_rules as M
     M.memo_sound(ctx, 'R06.M')
